@@ -123,6 +123,8 @@ class RefType:
                 return DC, "unknown dmm"
             if self.mode == "xy":
                 return REF, "DMM in XY mode"
+            if getattr(self, "slm_ambiguous", False):
+                return DC, "several SLM configurations stored"
             if not self.reusable and (did in self.used_ids or did == self.slm_dmm_id):
                 return REF, "DMM already declared on a non-reusable device"
             if self.mode is None and self.slm:
@@ -263,8 +265,13 @@ class RefType:
             self.used_ids.append(op["dmm_id"])
             self.mode = "ising"
         elif k == "config_slm_mask":
+            if self.slm:
+                # a second configuration stored by a parametrized sequence
+                # (validated at build time): which DMM is bound is undecided
+                self.slm_ambiguous = True
+            else:
+                self.slm_dmm_id = op.get("dmm_id", "dmm_0")
             self.slm = True
-            self.slm_dmm_id = op.get("dmm_id", "dmm_0")
             for n in post.flags["declared"]:
                 if n not in self.chans:
                     did = self.slm_dmm_id
